@@ -150,6 +150,18 @@ void *memcpy(void *dst, const void *src, size_t n)
   for (i = 0; i < C10_DATA; i++) if (i < n) ((uint8_t *) dst)[i] = ((const uint8_t *) src)[i];
   return dst;
 }
+/* memset model (CBMC only).  cache.c uses memset only as CLEAR(*cn) (add_network, delete_network) and CLEAR(*ca)
+ * (vbi_cache_new, vbi_cache_delete); the model performs them as typed struct assignments from zero objects
+ * (the library model's byte-wise view of the 35 KB network object cost minutes of symex per call) and rejects
+ * any other use. */
+static const cache_network C10_ZERO_NET; static const vbi_cache C10_ZERO_CA;
+void *memset(void *s, int c, size_t n)
+{
+  if (c == 0 && n == sizeof(cache_network)) *(cache_network *) s = C10_ZERO_NET;
+  else if (c == 0 && n == sizeof(vbi_cache)) *(vbi_cache *) s = C10_ZERO_CA;
+  else V_ASSERT(0, "memset_model_covers_only_CLEAR_of_network_and_cache");
+  return s;
+}
 #endif
 
 /* log / intl environment: never reached with log hooks off, bodies needed at link time */
@@ -261,6 +273,7 @@ static unsigned ref_size(int fn, unsigned x26, unsigned x28)
   }
 }
 
+static const struct view VIEW_ZERO;
 static int stat_zero(const struct ttx_page_stat *x)
 { return x->page_type == 0 && x->charset_code == 0 && x->subcode == 0 && x->flags == 0 && x->n_subpages == 0 && x->max_subpages == 0 && x->subno_min == 0 && x->subno_max == 0; }
 
@@ -274,7 +287,7 @@ static int audit(struct view *v)
 {
   int ok = 1, i, n, a, k, cnt_h[NP], cnt_p[NP], cnt_r[NP], cnt_n[NN], nlive = 0, nnets = 0, nnz = 0;
   unsigned long mem = 0;
-  memset(v, 0, sizeof *v);
+  *v = VIEW_ZERO;
   if (!ca_live) return 0;
   for (i = 0; i < NP; i++) cnt_h[i] = cnt_p[i] = cnt_r[i] = 0;
   for (n = 0; n < NN; n++) cnt_n[n] = 0;
@@ -396,6 +409,18 @@ static int audit(struct view *v)
 #endif
 static const int SPA[4] = { C10_S0, C10_S1, C10_S2, C10_S3 };
 static const int SRC_[4] = { C10_R0, C10_R1, C10_R2, C10_R3 };
+/* zombie flag of each built network: 0 / 1 concrete, 2 = symbolic.  Concrete 0 lets constant propagation prune
+ * delete_network() behind `cn->zombie && ...` in cache_page_unref (symex of that path did not finish, see report) */
+#ifndef C10_Z0
+#define C10_Z0 2
+#endif
+#ifndef C10_Z1
+#define C10_Z1 2
+#endif
+#ifndef C10_Z2
+#define C10_Z2 2
+#endif
+static const int SZ_[3] = { C10_Z0, C10_Z1, C10_Z2 };
 
 /* builder-side allocation: slot index concrete, liveness symbolic */
 static void *take_page(int i, unsigned size, int live)
@@ -464,6 +489,7 @@ static void build_state(int max_pages)
     cache_network *cn;
     for (a = 0; a < NA; a++) { st[a].page_type = in_u8(); st[a].charset_code = in_u8(); st[a].subcode = in_u16(); st[a].flags = in_u32();
       st[a].n_subpages = 0; st[a].max_subpages = in_u8(); st[a].subno_min = in_u8(); st[a].subno_max = in_u8(); }
+    if (SZ_[n] != 2) zombie = (unsigned) SZ_[n];
     V_ASSUME(ref <= 2 && zombie <= 1);
     cn = (cache_network *) take_net(n, (int) live);
     if (!live) continue;
